@@ -170,7 +170,7 @@ inline Truth gen_request(vh::Rng &r, int ordinal, const GenOpts &o, int force_cl
         for (int i = 0; i < nq; ++i) t.query[word(r, 1, 5, r.chance(1, 4))] = r.chance(1, 6) ? std::string() : word(r, 1, 8, r.chance(1, 3));
         if (r.chance(1, 10)) t.frag = word(r, 1, 5, r.chance(1, 3));
     }
-    std::string target = pct(r, t.path, true);
+    std::string target = "/" + pct(r, t.path.substr(1), true);     // the leading slash is never escaped
     for (auto &kv : t.params) target += ";" + pct(r, kv.first, false) + "=" + pct(r, kv.second, false);
     {
         bool first = true;
